@@ -100,6 +100,8 @@ struct KeyFacts {
     /// constants occurring only in stored *values*
     value_consts: BTreeSet<String>,
     accesses:     usize,
+    /// executed SLOAD / SSTORE instructions (by code byte), summed over explored paths
+    storage_ops:  usize,
 }
 
 /// keccak images of constant data under a Sha3 node, in the forms the proxy-slot pass documents:
@@ -211,6 +213,7 @@ pub struct Observed {
 /// Staged analysis with the VM's values observed between execution and inference.
 pub fn observe(code: &[u8], lim: &Limits) -> Observed {
     let code2 = code.to_vec();
+    let code_bytes = code.to_vec();
     let cfg = vm_config(lim);
     let r = guarded(move || {
         let contract = Contract::new(
@@ -227,8 +230,33 @@ pub fn observe(code: &[u8], lim: &Limits) -> Observed {
             .map_err(|e| format!("{e:?}"))?
             .execute()
             .map_err(|e| format!("{e:?}"))?;
+        // storage instructions the VM actually executed, judged from the code bytes: an executed
+        // offset whose byte is SLOAD (0x54) or SSTORE (0x55) at an instruction boundary
+        let boundaries = {
+            let mut b = vec![false; code_bytes.len()];
+            let mut i = 0;
+            while i < code_bytes.len() {
+                b[i] = true;
+                if (0x60..=0x7f).contains(&code_bytes[i]) {
+                    i += (code_bytes[i] - 0x5f) as usize;
+                }
+                i += 1;
+            }
+            b
+        };
+        let mut storage_ops = 0usize;
+        for st in &ex.state().execution_result.states {
+            for (off, byte) in code_bytes.iter().enumerate() {
+                if boundaries[off] && (*byte == 0x54 || *byte == 0x55)
+                    && st.visited_instructions().visit_count(off as u32).unwrap_or(0) > 0
+                {
+                    storage_ops += 1;
+                }
+            }
+        }
         let vals = ex.state().execution_result.clone().all_values();
-        let facts = key_facts(&vals);
+        let mut facts = key_facts(&vals);
+        facts.storage_ops = storage_ops;
         let ex = ex.prepare_unifier().infer().map_err(|e| format!("{e:?}"))?;
         Ok::<_, String>((ex.layout().clone(), facts, vals.len()))
     });
@@ -252,7 +280,7 @@ pub fn observe(code: &[u8], lim: &Limits) -> Observed {
             msg:     String::new(),
             entries: entries_json(&layout),
             keys:    json!({"consts": f.consts, "literal": f.literal, "derived": f.derived,
-                            "value_consts": f.value_consts, "accesses": f.accesses}),
+                            "value_consts": f.value_consts, "accesses": f.accesses, "storage_ops": f.storage_ops}),
             values:  n,
         },
     }
@@ -299,7 +327,21 @@ fn lookalike_program(rng: &mut StdRng, with_storage: bool) -> Vec<u8> {
     let mut items = Vec::new();
     for _ in 0..rng.gen_range(1..5) {
         let c = rng.gen_range(0..30u8);
-        match rng.gen_range(0..3) {
+        match rng.gen_range(0..if with_storage { 5 } else { 4 }) {
+            3 => {
+                // bytes that are not storage instructions but look like them to a careless table
+                // (0x5c / 0x5d are unassigned in the targeted fork), with constant operands
+                if rng.gen_bool(0.5) {
+                    items.extend([p1(c), Item::Op(0x5c), Item::Op(0x50)]);
+                } else {
+                    items.extend([p1(4), Item::Op(0x35), p1(c), Item::Op(0x5d)]);
+                }
+                continue;
+            }
+            4 => {
+                // keccak(sload(s) || c): the pre-image contains a storage read, the hash is only a value
+                items.extend([p1(rng.gen_range(60..70)), Item::Op(0x54), p1(0), Item::Op(0x52), p1(c), p1(0x20), Item::Op(0x52), p1(0x40), p1(0), Item::Op(0x20)]);
+            }
             0 => {
                 // keccak(key || c)
                 items.extend([p1(4), Item::Op(0x35), p1(0), Item::Op(0x52), p1(c), p1(0x20), Item::Op(0x52), p1(0x40), p1(0), Item::Op(0x20)]);
